@@ -1,1 +1,959 @@
-fn main() {}
+//! C26 — multipart/mixed subscription bodies are well framed.
+//!
+//! Seam: `async_graphql::http::create_multipart_mixed_stream(input, timer, interval)`.
+//!
+//! Part A (engines `explore` + `sched`): the input stream awaits a gate before each
+//! response ("resp#i") and before end of input ("end"); the `Timer` awaits a gate per
+//! armed delay ("tick#j", budget-capped). `sched` (Policy::Eager) opens one gate at a
+//! time and polls to quiescence, `explore` enumerates every order, the number of
+//! responses and their contents. At most one source is ready per step, so the
+//! pseudo-random branch order of `futures::select!` cannot influence the output and
+//! every execution is reproducible (each one is run twice and compared).
+//!
+//! Part B (complete sweep, hand-driven): every script of *burst* steps in which a
+//! step releases several responses and/or the armed timer at once before the output
+//! is polled again (slow consumer). Here `select!` does pick pseudo-randomly, which
+//! the harness cannot own; the oracle for these steps accepts every order.
+//!
+//! Oracle: a strict RFC 2046 reader written here, cross-checked with `multer`.
+
+use agv_engine::explore::{explore, Chooser, ExploreCfg};
+use agv_engine::record::{Cx, Violation};
+use agv_engine::sched::{self, End, FlagWaker, Handle, RunCfg};
+use async_graphql::http::create_multipart_mixed_stream;
+use async_graphql::runtime::Timer;
+use async_graphql::{PathSegment, Pos, Response, ServerError, Value as GqlValue};
+use bytes::Bytes;
+use futures_util::future::BoxFuture;
+use futures_util::{FutureExt, Stream, StreamExt};
+use serde_json::{json, Value};
+use std::collections::HashSet;
+use std::future::Future;
+use std::pin::Pin;
+use std::sync::atomic::{AtomicBool, AtomicU64, AtomicUsize, Ordering};
+use std::sync::{Arc, Mutex};
+use std::task::{Context, Poll, Waker};
+use std::time::Duration;
+
+const BOUNDARY: &str = "graphql";
+const INTERVAL: Duration = Duration::from_secs(30);
+
+// ---------------------------------------------------------------------------------------------
+// response contents
+// ---------------------------------------------------------------------------------------------
+
+/// A string that would end the part and forge a part plus the closing delimiter if it
+/// ever reached the wire unescaped.
+const EVIL: &str = "x\r\n--graphql\r\nContent-Type: application/json\r\n\r\n{}\r\n--graphql--\r\n--graphql";
+
+const KIND_NAMES: [&str; 6] = ["data", "errors", "unicode", "boundary-string", "boundary-in-error-and-extensions", "nested-binary-empty"];
+
+fn gql(v: Value) -> GqlValue {
+    GqlValue::from_json(v).expect("harness value converts")
+}
+
+/// The i-th response of kind `k`. Contents carry `i` so that equal kinds at different
+/// positions are still distinguishable (a duplicate or a swap is visible).
+fn make_resp(k: usize, i: usize) -> Response {
+    match k {
+        0 => Response::new(gql(json!({"tick": {"n": i, "ok": true, "list": [1, 2, 3], "nothing": null}}))),
+        1 => {
+            let mut r = Response::from_errors(vec![
+                ServerError::new(format!("boom {i}"), Some(Pos { line: 1, column: 2 }))
+                    .with_path(vec![PathSegment::Field("tick".into()), PathSegment::Index(i)]),
+                ServerError::new("second", None),
+            ]);
+            r.data = GqlValue::Null;
+            r
+        }
+        2 => Response::new(gql(json!({"s": format!("h\u{e9}llo \u{2028}\u{2029} \u{1F600} \u{0} \u{7f} \u{85} \"quoted\" \\ back / {i}"), "\u{e9}\u{1F600}": i}))),
+        3 => Response::new(gql(json!({"s": format!("{EVIL}{i}"), EVIL: i, "lf": "\n--graphql\n", "cr": "\r--graphql--\r", "crlf": "\r\n", "list": [EVIL, "\r\n--graphql--\r\n"]}))),
+        4 => {
+            let mut r = Response::from_errors(vec![ServerError::new(format!("{EVIL}{i}"), None).with_path(vec![PathSegment::Field(EVIL.into())])]);
+            r.data = gql(json!({"partial": null}));
+            r.extensions.insert(EVIL.to_string(), gql(json!({"trace": EVIL, "n": i})));
+            r
+        }
+        _ => Response::new(gql(json!({"empty": {}, "el": [], "deep": [[[{"a": [{"b": i}]}]]], "big": 18446744073709551615u64, "neg": -9223372036854775808i64, "es": ""}))),
+    }
+}
+
+// ---------------------------------------------------------------------------------------------
+// reference multipart reader (RFC 2046 §5.1.1, strict: no preamble, no transport padding)
+// ---------------------------------------------------------------------------------------------
+
+#[derive(Debug, Clone, PartialEq)]
+struct Part {
+    headers: Vec<(String, String)>,
+    body: Vec<u8>,
+}
+
+#[derive(Debug)]
+struct ReadErr {
+    stage: &'static str,
+    msg: String,
+}
+
+fn find(hay: &[u8], needle: &[u8], from: usize) -> Option<usize> {
+    if needle.is_empty() || hay.len() < needle.len() {
+        return None;
+    }
+    (from..=hay.len() - needle.len()).find(|&i| &hay[i..i + needle.len()] == needle)
+}
+
+/// multipart-body := dash-boundary CRLF body-part *(delimiter CRLF body-part) close-delimiter CRLF
+/// body-part := *(header CRLF) CRLF octets        delimiter := CRLF "--graphql"
+/// The only deviation admitted: the body that consists of the close delimiter alone
+/// (`--graphql--CRLF`), the conventional encoding of zero parts (see `assume`).
+fn read_multipart(b: &[u8]) -> Result<Vec<Part>, ReadErr> {
+    let dash = format!("--{BOUNDARY}").into_bytes();
+    let delim = format!("\r\n--{BOUNDARY}").into_bytes();
+    let err = |stage: &'static str, msg: String| Err(ReadErr { stage, msg });
+    if !b.starts_with(&dash) {
+        return err("first-boundary", format!("body does not start with --{BOUNDARY} (starts {:?})", String::from_utf8_lossy(&b[..b.len().min(24)])));
+    }
+    let mut pos = dash.len();
+    if b[pos..].starts_with(b"--") {
+        // zero parts
+        let rest = &b[pos + 2..];
+        return if rest == b"\r\n" || rest.is_empty() {
+            Ok(Vec::new())
+        } else {
+            err("bytes-after-close", format!("{} byte(s) after the closing delimiter: {:?}", rest.len(), String::from_utf8_lossy(&rest[..rest.len().min(48)])))
+        };
+    }
+    let mut parts = Vec::new();
+    loop {
+        // after a (dash-)boundary that is not the close delimiter: CRLF
+        if !b[pos..].starts_with(b"\r\n") {
+            return err("boundary-line", format!("boundary at byte {pos} is not followed by CRLF or \"--\" (next {:?})", String::from_utf8_lossy(&b[pos..b.len().min(pos + 16)])));
+        }
+        pos += 2;
+        // header lines up to the empty line
+        let mut headers = Vec::new();
+        loop {
+            let Some(eol) = find(b, b"\r\n", pos) else {
+                return err("headers", format!("unterminated header line at byte {pos}"));
+            };
+            let line = &b[pos..eol];
+            pos = eol + 2;
+            if line.is_empty() {
+                break;
+            }
+            if line.iter().any(|c| *c == b'\r' || *c == b'\n') {
+                return err("headers", "bare CR or LF inside a header line".into());
+            }
+            let Ok(s) = std::str::from_utf8(line) else {
+                return err("headers", "header line is not UTF-8".into());
+            };
+            if s.starts_with("--") {
+                return err("headers", format!("boundary-like line {s:?} where a header or the empty line is required"));
+            }
+            let Some((name, value)) = s.split_once(':') else {
+                return err("headers", format!("header line without colon: {s:?}"));
+            };
+            if name.is_empty() || name.chars().any(|c| c.is_ascii_whitespace() || c.is_ascii_control()) {
+                return err("headers", format!("bad header name {name:?}"));
+            }
+            headers.push((name.to_ascii_lowercase(), value.trim().to_string()));
+        }
+        // body up to the first delimiter
+        let Some(d) = find(b, &delim, pos) else {
+            return err("no-delimiter", format!("part {} is not terminated by CRLF--{BOUNDARY} (close delimiter missing)", parts.len()));
+        };
+        parts.push(Part { headers, body: b[pos..d].to_vec() });
+        pos = d + delim.len();
+        if b[pos..].starts_with(b"--") {
+            let rest = &b[pos + 2..];
+            return if rest == b"\r\n" || rest.is_empty() {
+                Ok(parts)
+            } else {
+                err("bytes-after-close", format!("{} byte(s) after the closing delimiter: {:?}", rest.len(), String::from_utf8_lossy(&rest[..rest.len().min(48)])))
+            };
+        }
+    }
+}
+
+/// Lines (CRLF separated) that are exactly the close delimiter.
+fn close_delimiter_lines(b: &[u8]) -> (usize, bool) {
+    let close = format!("--{BOUNDARY}--").into_bytes();
+    let mut lines: Vec<&[u8]> = Vec::new();
+    let mut pos = 0;
+    while let Some(e) = find(b, b"\r\n", pos) {
+        lines.push(&b[pos..e]);
+        pos = e + 2;
+    }
+    let tail = &b[pos..];
+    if !tail.is_empty() {
+        lines.push(tail);
+    }
+    let n = lines.iter().filter(|l| **l == &close[..]).count();
+    let last = lines.last().map(|l| *l == &close[..]).unwrap_or(false);
+    (n, last)
+}
+
+/// The same bytes, chunked as emitted, through `multer` (the reader the crate itself uses
+/// for uploads). Returns (content-type essence, body) per part.
+fn read_with_multer(chunks: &[Vec<u8>]) -> Result<Vec<(Option<String>, Vec<u8>)>, String> {
+    let items: Vec<Result<Bytes, std::io::Error>> = chunks.iter().map(|c| Ok(Bytes::from(c.clone()))).collect();
+    let fut = async move {
+        let mut mp = multer::Multipart::new(futures_util::stream::iter(items), BOUNDARY);
+        let mut out = Vec::new();
+        loop {
+            match mp.next_field().await {
+                Ok(Some(f)) => {
+                    let ct = f.content_type().map(|m| m.essence_str().to_string());
+                    match f.bytes().await {
+                        Ok(b) => out.push((ct, b.to_vec())),
+                        Err(e) => return Err(format!("field body: {e}")),
+                    }
+                }
+                Ok(None) => return Ok(out),
+                Err(e) => return Err(format!("next_field: {e}")),
+            }
+        }
+    };
+    match sched::drive(fut) {
+        Some(r) => r,
+        None => Err("multer parked on a fully available body".into()),
+    }
+}
+
+// ---------------------------------------------------------------------------------------------
+// oracle
+// ---------------------------------------------------------------------------------------------
+
+struct Finding {
+    class: &'static str,
+    stage: String,
+    detail: String,
+}
+
+fn fnd(class: &'static str, stage: impl Into<String>, detail: impl Into<String>) -> Finding {
+    Finding { class, stage: stage.into(), detail: detail.into() }
+}
+
+#[derive(Clone, Copy, PartialEq, Debug)]
+enum Ev {
+    Resp(usize),
+    Tick,
+}
+
+/// What the heartbeats must look like.
+enum Beats<'a> {
+    /// one source ready per step: the part sequence is exactly this event sequence
+    Exact(&'a [Ev]),
+    /// burst steps: heartbeat count within bounds, position free
+    Count(usize, usize),
+}
+
+fn is_subseq(small: &[Value], big: &[Value]) -> bool {
+    let mut it = big.iter();
+    small.iter().all(|s| it.any(|b| b == s))
+}
+
+struct Judged {
+    findings: Vec<Finding>,
+    parts: usize,
+    heartbeats: usize,
+    raw_line_break_in_body: bool,
+}
+
+fn judge(expected: &[Value], chunks: &[Vec<u8>], beats: Beats) -> Judged {
+    let bytes: Vec<u8> = chunks.concat();
+    let mut f = Vec::new();
+    let mut j = Judged { findings: Vec::new(), parts: 0, heartbeats: 0, raw_line_break_in_body: false };
+
+    // closing delimiter: exactly once, last
+    let (n_close, close_last) = close_delimiter_lines(&bytes);
+    if n_close == 0 {
+        f.push(fnd("close-delimiter-missing", "close", "no line equal to --graphql-- in the body"));
+    } else if n_close > 1 {
+        f.push(fnd("close-delimiter-repeated", "close", format!("{n_close} lines equal to --graphql-- in the body")));
+    } else if !close_last {
+        f.push(fnd("close-delimiter-not-last", "close", "the --graphql-- line is not the last line of the body"));
+    }
+
+    let parts = match read_multipart(&bytes) {
+        Ok(p) => p,
+        Err(e) => {
+            // a repeated / misplaced close delimiter already explains these reader stages
+            let explained = (e.stage == "bytes-after-close" && f.iter().any(|x| x.class != "close-delimiter-missing")) || (e.stage == "no-delimiter" && n_close == 0);
+            if !explained {
+                f.push(fnd("malformed-multipart", e.stage, e.msg));
+            }
+            j.findings = f;
+            return j;
+        }
+    };
+    j.parts = parts.len();
+
+    // multer cross-check (only meaningful once the reference accepted the framing)
+    match read_with_multer(chunks) {
+        Err(e) => f.push(fnd("multer-rejects", "multer", format!("reference reader accepts {} part(s) but multer fails: {e}", parts.len()))),
+        Ok(mp) => {
+            if mp.len() != parts.len() || mp.iter().zip(&parts).any(|(a, b)| a.1 != b.body) {
+                f.push(fnd("multer-disagrees", "multer", format!("reference reader sees {} part(s), multer {} (or bodies differ)", parts.len(), mp.len())));
+            } else if mp.iter().any(|(ct, _)| ct.as_deref() != Some("application/json")) {
+                f.push(fnd("part-content-type", "multer", "multer does not report content-type application/json for some part"));
+            }
+        }
+    }
+
+    // every part: application/json header and a JSON body
+    let mut vals: Vec<Value> = Vec::new();
+    for (i, p) in parts.iter().enumerate() {
+        let cts: Vec<&String> = p.headers.iter().filter(|(n, _)| n == "content-type").map(|(_, v)| v).collect();
+        let ok = cts.len() == 1 && cts[0].split(';').next().map(|e| e.trim().eq_ignore_ascii_case("application/json")).unwrap_or(false);
+        if !ok {
+            f.push(fnd("part-content-type", "headers", format!("part {i} has headers {:?}, expected exactly one Content-Type: application/json", p.headers)));
+        }
+        if p.body.iter().any(|c| *c == b'\r' || *c == b'\n') {
+            j.raw_line_break_in_body = true;
+        }
+        match serde_json::from_slice::<Value>(&p.body) {
+            Ok(v) => vals.push(v),
+            Err(e) => {
+                f.push(fnd("part-not-json", "body", format!("part {i} body is not one JSON value ({e}): {:?}", String::from_utf8_lossy(&p.body[..p.body.len().min(80)]))));
+                j.findings = f;
+                return j;
+            }
+        }
+    }
+
+    let empty = json!({});
+    let got_resps: Vec<Value> = vals.iter().filter(|v| **v != empty).cloned().collect();
+    j.heartbeats = vals.len() - got_resps.len();
+    if got_resps != expected {
+        let mut a: Vec<String> = got_resps.iter().map(|v| v.to_string()).collect();
+        let mut b: Vec<String> = expected.iter().map(|v| v.to_string()).collect();
+        a.sort();
+        b.sort();
+        let how = if a == b {
+            "reordered"
+        } else if is_subseq(&got_resps, expected) {
+            "missing"
+        } else if is_subseq(expected, &got_resps) {
+            if got_resps.iter().all(|g| expected.contains(g)) {
+                "duplicated"
+            } else {
+                "extra-part"
+            }
+        } else {
+            "altered"
+        };
+        f.push(fnd("responses-mismatch", how, format!("non-heartbeat parts are {} of the {} responses ({how}); got {}", got_resps.len(), expected.len(), Value::Array(got_resps.clone()))));
+    } else {
+        match beats {
+            Beats::Exact(evs) => {
+                let want: Vec<bool> = evs.iter().map(|e| *e == Ev::Tick).collect();
+                let got: Vec<bool> = vals.iter().map(|v| *v == empty).collect();
+                if want != got {
+                    let show = |v: &[bool]| v.iter().map(|b| if *b { 'H' } else { 'R' }).collect::<String>();
+                    f.push(fnd("heartbeat-mismatch", if want.len() != got.len() { "count" } else { "position" }, format!("events {} but parts {}", show(&want), show(&got))));
+                }
+            }
+            Beats::Count(lo, hi) => {
+                if j.heartbeats < lo || j.heartbeats > hi {
+                    f.push(fnd("heartbeat-mismatch", "count", format!("{} heartbeat part(s), expected between {lo} and {hi}", j.heartbeats)));
+                }
+            }
+        }
+    }
+    j.findings = f;
+    j
+}
+
+// ---------------------------------------------------------------------------------------------
+// Part A: gated sources under sched
+// ---------------------------------------------------------------------------------------------
+
+struct GatedInput {
+    h: Handle,
+    kinds: Vec<usize>,
+    next: usize,
+    gate: Option<sched::Gate>,
+    done: bool,
+    polls_after_end: Arc<AtomicUsize>,
+}
+
+impl Stream for GatedInput {
+    type Item = Response;
+    fn poll_next(mut self: Pin<&mut Self>, cx: &mut Context<'_>) -> Poll<Option<Response>> {
+        let this = &mut *self;
+        if this.done {
+            this.polls_after_end.fetch_add(1, Ordering::Relaxed);
+            return Poll::Ready(None);
+        }
+        if this.gate.is_none() {
+            let name = if this.next < this.kinds.len() { format!("resp#{}", this.next) } else { "end".to_string() };
+            this.gate = Some(this.h.gate(name));
+        }
+        match Pin::new(this.gate.as_mut().unwrap()).poll(cx) {
+            Poll::Pending => Poll::Pending,
+            Poll::Ready(()) => {
+                this.gate = None;
+                if this.next < this.kinds.len() {
+                    let r = make_resp(this.kinds[this.next], this.next);
+                    this.next += 1;
+                    Poll::Ready(Some(r))
+                } else {
+                    this.done = true;
+                    Poll::Ready(None)
+                }
+            }
+        }
+    }
+}
+
+struct GatedTimer {
+    h: Handle,
+    calls: AtomicUsize,
+    budget: usize,
+    wrong_interval: Arc<AtomicBool>,
+}
+
+impl Timer for GatedTimer {
+    fn delay(&self, d: Duration) -> BoxFuture<'static, ()> {
+        if d != INTERVAL {
+            self.wrong_interval.store(true, Ordering::Relaxed);
+        }
+        let j = self.calls.fetch_add(1, Ordering::Relaxed);
+        if j >= self.budget {
+            return std::future::pending().boxed();
+        }
+        let mut g = self.h.gate(format!("tick#{j}"));
+        // Register the gate now, in program order. Left to its first real poll it would be
+        // registered in the (pseudo-random) order in which select! polls its branches and the
+        // scheduler's gate menu would stop being a function of the choice sequence.
+        let w = futures_util::task::noop_waker();
+        let _ = Pin::new(&mut g).poll(&mut Context::from_waker(&w));
+        g.boxed()
+    }
+}
+
+#[derive(Clone, PartialEq, Debug)]
+struct ObsA {
+    kinds: Vec<usize>,
+    schedule: Vec<String>,
+    end: String,
+    pending: Vec<String>,
+    chunks: Vec<Vec<u8>>,
+    panic: Option<String>,
+    wrong_interval: bool,
+    polls_after_end: usize,
+}
+
+#[derive(Clone, Copy)]
+struct BoundsA {
+    max_n: usize,
+    ticks: usize,
+    kinds: usize,
+}
+
+fn run_a(ch: &mut Chooser, b: BoundsA) -> ObsA {
+    let n = ch.any("responses", b.max_n + 1);
+    let kinds: Vec<usize> = (0..n).map(|i| ch.any(&format!("kind{i}"), b.kinds)).collect();
+    let h = Handle::new();
+    let out: Arc<Mutex<Vec<Vec<u8>>>> = Arc::new(Mutex::new(Vec::new()));
+    let wrong_interval = Arc::new(AtomicBool::new(false));
+    let polls_after_end = Arc::new(AtomicUsize::new(0));
+    let input = GatedInput { h: h.clone(), kinds: kinds.clone(), next: 0, gate: None, done: false, polls_after_end: polls_after_end.clone() };
+    let timer = GatedTimer { h: h.clone(), calls: AtomicUsize::new(0), budget: b.ticks, wrong_interval: wrong_interval.clone() };
+    let out2 = out.clone();
+    let root = async move {
+        let mut s = create_multipart_mixed_stream(input, timer, INTERVAL);
+        while let Some(bytes) = s.next().await {
+            out2.lock().unwrap().push(bytes.to_vec());
+        }
+    };
+    let r = agv_engine::catch_quiet(|| {
+        let r = sched::run(&h, ch, &RunCfg { max_steps: 2_000, ..RunCfg::default() }, root, &mut |_| {});
+        (r.end, r.schedule, r.pending_gates)
+    });
+    let chunks = out.lock().unwrap().clone();
+    match r {
+        Ok((end, schedule, pending)) => ObsA {
+            kinds,
+            schedule,
+            end: match end {
+                End::Done => "done".into(),
+                End::Deadlock => "deadlock".into(),
+                End::Horizon => "horizon".into(),
+            },
+            pending,
+            chunks,
+            panic: None,
+            wrong_interval: wrong_interval.load(Ordering::Relaxed),
+            polls_after_end: polls_after_end.load(Ordering::Relaxed),
+        },
+        Err(p) => ObsA { kinds, schedule: Vec::new(), end: "panic".into(), pending: Vec::new(), chunks, panic: Some(p), wrong_interval: false, polls_after_end: 0 },
+    }
+}
+
+fn events_of(schedule: &[String]) -> (Vec<Ev>, bool) {
+    let mut evs = Vec::new();
+    let mut ended = false;
+    for m in schedule {
+        if let Some(r) = m.strip_prefix("open resp#") {
+            evs.push(Ev::Resp(r.parse().unwrap_or(usize::MAX)));
+        } else if m.starts_with("open tick#") {
+            evs.push(Ev::Tick);
+        } else if m == "open end" {
+            ended = true;
+        }
+    }
+    (evs, ended)
+}
+
+fn expected_values(kinds: &[usize]) -> Vec<Value> {
+    kinds.iter().enumerate().map(|(i, k)| serde_json::to_value(make_resp(*k, i)).expect("response serializes to a serde_json value")).collect()
+}
+
+fn judge_a(o: &ObsA) -> Judged {
+    if let Some(p) = &o.panic {
+        return Judged { findings: vec![fnd("panic", "run", format!("the stream panicked: {p}"))], parts: 0, heartbeats: 0, raw_line_break_in_body: false };
+    }
+    let (evs, ended) = events_of(&o.schedule);
+    if o.end != "done" || !ended {
+        return Judged {
+            findings: vec![fnd("stream-does-not-end", o.end.clone(), format!("run ended {} (end of input delivered: {ended}), pending gates {:?}, schedule {:?}", o.end, o.pending, o.schedule))],
+            parts: 0,
+            heartbeats: 0,
+            raw_line_break_in_body: false,
+        };
+    }
+    let mut j = judge(&expected_values(&o.kinds), &o.chunks, Beats::Exact(&evs));
+    if o.schedule.last().map(|s| s.as_str()) != Some("open end") {
+        j.findings.push(fnd("output-after-end-of-input", "schedule", format!("the stream needed further events after end of input: {:?}", o.schedule)));
+    }
+    j
+}
+
+fn escape(b: &[u8]) -> String {
+    String::from_utf8_lossy(b).replace('\r', "\\r").replace('\n', "\\n\n    ")
+}
+
+fn binom(n: u64, k: u64) -> u64 {
+    (0..k).fold(1u64, |acc, i| acc * (n - i) / (i + 1))
+}
+
+fn part_a(cx: &Cx, b: BoundsA) {
+    let seen: Mutex<HashSet<u64>> = Mutex::new(HashSet::new());
+    let prefixes: Mutex<HashSet<u64>> = Mutex::new(HashSet::new());
+    let moves = AtomicU64::new(0);
+    let parts_total = AtomicU64::new(0);
+    let beats_total = AtomicU64::new(0);
+    let raw_breaks = AtomicU64::new(0);
+    let nondeterministic = AtomicU64::new(0);
+    let wrong_interval = AtomicU64::new(0);
+    let polls_after_end = AtomicU64::new(0);
+
+    let st = explore(&ExploreCfg::default(), &|ch: &mut Chooser| run_a(ch, b), &|ch: &Chooser, o: ObsA| {
+        cx.eval();
+        let choices = ch.choices();
+        // reproducibility: the same choice sequence must give the same schedule and the same bytes
+        let again = run_a(&mut Chooser::from_choices(&choices), b);
+        if again != o {
+            nondeterministic.fetch_add(1, Ordering::Relaxed);
+        }
+        let sem = agv_engine::h64(&(&o.kinds, &o.schedule));
+        seen.lock().unwrap().insert(sem);
+        {
+            let mut p = prefixes.lock().unwrap();
+            for k in 0..=o.schedule.len() {
+                p.insert(agv_engine::h64(&(&o.kinds, &o.schedule[..k])));
+            }
+        }
+        moves.fetch_add(o.schedule.len() as u64, Ordering::Relaxed);
+        if o.wrong_interval {
+            wrong_interval.fetch_add(1, Ordering::Relaxed);
+        }
+        polls_after_end.fetch_add(o.polls_after_end as u64, Ordering::Relaxed);
+        let j = judge_a(&o);
+        parts_total.fetch_add(j.parts as u64, Ordering::Relaxed);
+        beats_total.fetch_add(j.heartbeats as u64, Ordering::Relaxed);
+        if j.raw_line_break_in_body {
+            raw_breaks.fetch_add(1, Ordering::Relaxed);
+        }
+        let (evs, _) = events_of(&o.schedule);
+        let has_r = evs.iter().any(|e| matches!(e, Ev::Resp(_)));
+        let has_t = evs.iter().any(|e| *e == Ev::Tick);
+        if has_r && has_t {
+            cx.nontrivial(sem);
+        }
+        cx.sample_with(sem, || json!({"part": "A", "kinds": o.kinds.iter().map(|k| KIND_NAMES[*k]).collect::<Vec<_>>(), "schedule": o.schedule, "parts": j.parts, "heartbeats": j.heartbeats, "bytes": o.chunks.concat().len()}));
+        for x in j.findings {
+            cx.violation(
+                Violation::new(
+                    x.class,
+                    format!("{}\n  kinds {:?}\n  schedule {:?}\n  body:\n    {}", x.detail, o.kinds.iter().map(|k| KIND_NAMES[*k]).collect::<Vec<_>>(), o.schedule, escape(&o.chunks.concat())),
+                    json!({"part": "A", "choices": choices, "max_n": b.max_n, "ticks": b.ticks, "kinds": b.kinds}),
+                )
+                .key("part", "A")
+                .key("stage", x.stage),
+            );
+        }
+    });
+    if let Some(d) = st.diverged {
+        cx.machinery_error(format!("part A: {d}"));
+    }
+    if st.capped {
+        cx.machinery_error("part A: execution cap hit (none was configured)");
+    }
+    // the number of interleavings is known in closed form: contents^n * sum_t C(n+t, t)
+    let want: u64 = (0..=b.max_n as u64).map(|n| (b.kinds as u64).pow(n as u32) * (0..=b.ticks as u64).map(|t| binom(n + t, t)).sum::<u64>()).sum();
+    let distinct = seen.lock().unwrap().len() as u64;
+    if distinct != st.executions || distinct != want {
+        cx.machinery_error(format!("part A: {} executions, {} distinct schedules, closed form says {want} — the harness does not own all nondeterminism", st.executions, distinct));
+    }
+    let nd = nondeterministic.load(Ordering::Relaxed);
+    if nd > 0 {
+        cx.machinery_error(format!("part A: {nd} execution(s) gave a different schedule or different bytes when run a second time"));
+    }
+    if wrong_interval.load(Ordering::Relaxed) > 0 {
+        cx.machinery_error("part A: Timer::delay was called with a duration other than the heartbeat interval (harness assumption broken)");
+    }
+    cx.add_traces(st.executions * 2);
+    cx.add_transitions(moves.load(Ordering::Relaxed));
+    cx.add_states(prefixes.lock().unwrap().len() as u64);
+    cx.extra(
+        "part_A",
+        json!({"responses_max": b.max_n, "timer_firings_max": b.ticks, "content_kinds": &KIND_NAMES[..b.kinds], "executions": st.executions, "distinct_schedules": distinct,
+            "closed_form_schedules": want, "choice_points": st.points, "max_depth": st.max_depth, "gate_openings": moves.load(Ordering::Relaxed), "parts_parsed": parts_total.load(Ordering::Relaxed),
+            "heartbeat_parts": beats_total.load(Ordering::Relaxed), "executions_with_raw_CR_or_LF_inside_a_part_body": raw_breaks.load(Ordering::Relaxed),
+            "each_execution_run_twice_identical": nd == 0, "input_polls_after_end_of_input": polls_after_end.load(Ordering::Relaxed)}),
+    );
+}
+
+// ---------------------------------------------------------------------------------------------
+// Part B: burst steps, hand-driven
+// ---------------------------------------------------------------------------------------------
+
+#[derive(Default)]
+struct Env {
+    resp_released: usize,
+    ticks_released: usize,
+    wakers: Vec<Waker>,
+}
+
+struct BurstInput {
+    env: Arc<Mutex<Env>>,
+    kinds: Vec<usize>,
+    next: usize,
+}
+
+impl Stream for BurstInput {
+    type Item = Response;
+    fn poll_next(mut self: Pin<&mut Self>, cx: &mut Context<'_>) -> Poll<Option<Response>> {
+        let this = &mut *self;
+        let mut e = this.env.lock().unwrap();
+        if this.next < e.resp_released {
+            let i = this.next;
+            this.next += 1;
+            if i < this.kinds.len() {
+                Poll::Ready(Some(make_resp(this.kinds[i], i)))
+            } else {
+                Poll::Ready(None)
+            }
+        } else if this.next > this.kinds.len() {
+            Poll::Ready(None)
+        } else {
+            e.wakers.push(cx.waker().clone());
+            Poll::Pending
+        }
+    }
+}
+
+struct BurstTimer {
+    env: Arc<Mutex<Env>>,
+    calls: AtomicUsize,
+}
+
+struct BurstDelay {
+    env: Arc<Mutex<Env>>,
+    j: usize,
+}
+
+impl Future for BurstDelay {
+    type Output = ();
+    fn poll(self: Pin<&mut Self>, cx: &mut Context<'_>) -> Poll<()> {
+        let mut e = self.env.lock().unwrap();
+        if self.j < e.ticks_released {
+            Poll::Ready(())
+        } else {
+            e.wakers.push(cx.waker().clone());
+            Poll::Pending
+        }
+    }
+}
+
+impl Timer for BurstTimer {
+    fn delay(&self, _d: Duration) -> BoxFuture<'static, ()> {
+        let j = self.calls.fetch_add(1, Ordering::Relaxed);
+        BurstDelay { env: self.env.clone(), j }.boxed()
+    }
+}
+
+struct ObsB {
+    chunks: Vec<Vec<u8>>,
+    finished: bool,
+    panic: Option<String>,
+}
+
+/// steps: (responses released — the (n+1)-th release is end of input, fire the armed timer)
+fn run_b(kinds: &[usize], steps: &[(usize, bool)]) -> ObsB {
+    let env = Arc::new(Mutex::new(Env::default()));
+    let input = BurstInput { env: env.clone(), kinds: kinds.to_vec(), next: 0 };
+    let timer = BurstTimer { env: env.clone(), calls: AtomicUsize::new(0) };
+    let mut chunks = Vec::new();
+    let mut finished = false;
+    let r = agv_engine::catch_quiet(|| {
+        let mut s = create_multipart_mixed_stream(input, timer, INTERVAL);
+        let fw = FlagWaker::new();
+        let waker = fw.waker();
+        let mut cx = Context::from_waker(&waker);
+        let mut pump = |chunks: &mut Vec<Vec<u8>>, finished: &mut bool| {
+            let mut spins = 0;
+            while !*finished {
+                match s.poll_next_unpin(&mut cx) {
+                    Poll::Ready(Some(b)) => chunks.push(b.to_vec()),
+                    Poll::Ready(None) => *finished = true,
+                    Poll::Pending => {
+                        spins += 1;
+                        if !fw.take() || spins > 10_000 {
+                            break;
+                        }
+                    }
+                }
+            }
+        };
+        pump(&mut chunks, &mut finished);
+        for (a, t) in steps {
+            let ws = {
+                let mut e = env.lock().unwrap();
+                e.resp_released += a;
+                if *t {
+                    e.ticks_released += 1;
+                }
+                std::mem::take(&mut e.wakers)
+            };
+            for w in ws {
+                w.wake();
+            }
+            fw.take();
+            pump(&mut chunks, &mut finished);
+        }
+    });
+    ObsB { chunks, finished, panic: r.err() }
+}
+
+fn scripts(n: usize, ticks: usize) -> Vec<Vec<(usize, bool)>> {
+    fn go(left: usize, ticks: usize, cur: &mut Vec<(usize, bool)>, out: &mut Vec<Vec<(usize, bool)>>) {
+        if left == 0 {
+            out.push(cur.clone());
+            return;
+        }
+        for a in 0..=left {
+            for t in [false, true] {
+                if (a == 0 && !t) || (t && ticks == 0) {
+                    continue;
+                }
+                cur.push((a, t));
+                go(left - a, ticks - t as usize, cur, out);
+                cur.pop();
+            }
+        }
+    }
+    let mut out = Vec::new();
+    go(n + 1, ticks, &mut Vec::new(), &mut out);
+    out
+}
+
+fn judge_b(kinds: &[usize], steps: &[(usize, bool)], o: &ObsB) -> Judged {
+    if let Some(p) = &o.panic {
+        return Judged { findings: vec![fnd("panic", "run", format!("the stream panicked: {p}"))], parts: 0, heartbeats: 0, raw_line_break_in_body: false };
+    }
+    if !o.finished {
+        return Judged { findings: vec![fnd("stream-does-not-end", "pending", "end of input was delivered and the output stream is still pending")], parts: 0, heartbeats: 0, raw_line_break_in_body: false };
+    }
+    // ticks released strictly before the step that delivers end of input must all show;
+    // the one released together with end of input may or may not
+    let mut released = 0;
+    let (mut lo, mut hi) = (0, 0);
+    for (a, t) in steps {
+        released += a;
+        if *t {
+            hi += 1;
+            if released <= kinds.len() {
+                lo += 1;
+            }
+        }
+    }
+    judge(&expected_values(kinds), &o.chunks, Beats::Count(lo, hi))
+}
+
+fn part_b(cx: &Cx, b: BoundsA) {
+    use rayon::prelude::*;
+    let mut cases: Vec<(Vec<usize>, Vec<(usize, bool)>)> = Vec::new();
+    for n in 0..=b.max_n {
+        let sc = scripts(n, b.ticks);
+        let total = b.kinds.pow(n as u32);
+        for code in 0..total {
+            let kinds: Vec<usize> = (0..n).map(|i| (code / b.kinds.pow(i as u32)) % b.kinds).collect();
+            for s in &sc {
+                // scripts with only single-source steps are Part A's; keep those with at least one burst
+                if s.iter().any(|(a, t)| *a + *t as usize >= 2) {
+                    cases.push((kinds.clone(), s.clone()));
+                }
+            }
+        }
+    }
+    let beats_lo = AtomicU64::new(0);
+    let beats_hi = AtomicU64::new(0);
+    let tick_first = AtomicBool::new(false);
+    let resp_first = AtomicBool::new(false);
+    cases.par_iter().for_each(|(kinds, steps)| {
+        cx.eval();
+        let o = run_b(kinds, steps);
+        let j = judge_b(kinds, steps, &o);
+        let id = agv_engine::h64(&("B", kinds, steps));
+        if !kinds.is_empty() && steps.iter().any(|(a, t)| *a >= 1 && *t) {
+            cx.nontrivial(id);
+            // which branch did select! serve first when a response and the timer were ready together?
+            if steps.len() >= 1 && steps[0].0 >= 1 && steps[0].1 && j.findings.is_empty() {
+                if let Ok(parts) = read_multipart(&o.chunks.concat()) {
+                    match parts.first().map(|p| p.body == b"{}") {
+                        Some(true) => tick_first.store(true, Ordering::Relaxed),
+                        Some(false) => resp_first.store(true, Ordering::Relaxed),
+                        None => {}
+                    }
+                }
+            }
+        }
+        if j.heartbeats == 0 {
+            beats_lo.fetch_add(1, Ordering::Relaxed);
+        } else {
+            beats_hi.fetch_add(1, Ordering::Relaxed);
+        }
+        cx.sample_with(id, || json!({"part": "B", "kinds": kinds.iter().map(|k| KIND_NAMES[*k]).collect::<Vec<_>>(), "steps": steps, "parts": j.parts}));
+        for x in j.findings {
+            cx.violation(
+                Violation::new(
+                    x.class,
+                    format!("{}\n  kinds {:?}\n  burst steps (responses released, timer fired) {:?}\n  body:\n    {}", x.detail, kinds.iter().map(|k| KIND_NAMES[*k]).collect::<Vec<_>>(), steps, escape(&o.chunks.concat())),
+                    json!({"part": "B", "kinds": kinds, "steps": steps}),
+                )
+                .key("part", "B")
+                .key("stage", x.stage),
+            );
+        }
+    });
+    cx.add_traces(cases.len() as u64);
+    cx.add_transitions(cases.iter().map(|(_, s)| s.len() as u64).sum());
+    cx.extra(
+        "part_B",
+        json!({"scripts_with_a_burst_step": cases.len(), "responses_max": b.max_n, "timer_firings_max": b.ticks, "content_kinds": b.kinds,
+            "select_served_response_first_somewhere": resp_first.load(Ordering::Relaxed), "select_served_timer_first_somewhere": tick_first.load(Ordering::Relaxed)}),
+    );
+    let _ = (beats_lo, beats_hi);
+}
+
+// ---------------------------------------------------------------------------------------------
+// self-test of the reference reader (a reader that accepts everything would make the check vacuous)
+// ---------------------------------------------------------------------------------------------
+
+fn reader_selftest(cx: &Cx) {
+    let h = "--graphql\r\nContent-Type: application/json\r\n\r\n";
+    let good = format!("{h}{{\"data\":1}}\r\n{h}{{}}\r\n--graphql--\r\n");
+    let cases: Vec<(&str, String, Option<&str>)> = vec![
+        ("good", good.clone(), None),
+        ("empty", "--graphql--\r\n".into(), None),
+        ("double-close", format!("{good}--graphql--\r\n"), Some("bytes-after-close")),
+        ("no-close", format!("{h}{{}}\r\n"), Some("no-delimiter")),
+        ("lf-only", good.replace("\r\n", "\n"), Some("boundary-line")),
+        ("missing-blank-line", "--graphql\r\nContent-Type: application/json\r\n{}\r\n--graphql--\r\n".into(), Some("headers")),
+        ("trailing-bytes", format!("{good}x"), Some("bytes-after-close")),
+        ("preamble", format!("x\r\n{good}"), Some("first-boundary")),
+        ("forged-part-in-body", format!("{h}{{\"s\":\"x\r\n--graphql\r\nContent-Type: application/json\r\n\r\n{{}}\"}}\r\n--graphql--\r\n"), None),
+    ];
+    for (name, body, want) in cases {
+        let got = read_multipart(body.as_bytes());
+        let ok = match (&got, want) {
+            (Ok(_), None) => true,
+            (Err(e), Some(w)) => e.stage == w,
+            _ => false,
+        };
+        if !ok {
+            cx.machinery_error(format!("reference reader self-test '{name}': expected {want:?}, got {:?}", got.map(|p| p.len())));
+        }
+        if name == "forged-part-in-body" {
+            // the reader must split at the raw delimiter (2 parts, the first not JSON): this is what
+            // would expose an unescaped line break in a response
+            let j = judge(&[json!({"s": "x"})], &[body.clone().into_bytes()], Beats::Count(0, 9));
+            if !j.findings.iter().any(|f| f.class == "part-not-json") {
+                cx.machinery_error("reference reader self-test: a raw CRLF--graphql inside a body did not split the part");
+            }
+        }
+        if name == "double-close" {
+            let j = judge(&[json!({"data": 1})], &[body.clone().into_bytes()], Beats::Count(0, 9));
+            if !j.findings.iter().any(|f| f.class == "close-delimiter-repeated") {
+                cx.machinery_error("oracle self-test: a repeated closing delimiter was not classified");
+            }
+        }
+    }
+}
+
+pub fn run(cx: &Cx) {
+    let b = if cx.quick() { BoundsA { max_n: 3, ticks: 3, kinds: 4 } } else { BoundsA { max_n: 4, ticks: 5, kinds: 6 } };
+    cx.rule(
+        "case = (number of responses, content kind of each, order in which the environment makes responses / timer firings / end of input ready). \
+         Part A: every order with one source ready at a time (sched gates, all interleavings). Part B: every script in which some step makes several \
+         responses and/or the armed timer ready at once before the output is polled. Non-trivial = at least one response and at least one timer firing \
+         in the same execution (A) or in the same burst step (B); identified by (contents, schedule).",
+    );
+    cx.assume("the body consisting of the closing delimiter alone (--graphql--CRLF, produced when the input ends before any response or heartbeat) is accepted as the conventional encoding of zero parts, although RFC 2046's grammar asks for at least one body part; multer reads it as zero parts too");
+    cx.assume("Part B: when a response and the timer are ready in the same poll, futures::select! serves them in a pseudo-random order the harness cannot choose; the oracle there accepts every order and only bounds the heartbeat count (a timer firing that becomes ready together with end of input may be dropped)");
+    cx.assume("the timer never fires again after the stated number of firings (finite space); a part body is compared as a JSON value (serde_json equality with serde_json::to_value(&response)), not byte for byte");
+    cx.assume("transport framing below the body (chunked encoding, the response's Content-Type header with boundary=graphql set by the integration crates) is outside this seam");
+    reader_selftest(cx);
+    // Part B first: it is sequential per case and its select! outcomes are the only ones not owned.
+    part_b(cx, b);
+    part_a(cx, b);
+    cx.exhaustive(true);
+}
+
+pub fn replay(case: &Value) -> String {
+    let mut s = String::new();
+    if case["part"] == "B" {
+        let kinds: Vec<usize> = case["kinds"].as_array().map(|a| a.iter().map(|v| v.as_u64().unwrap_or(0) as usize).collect()).unwrap_or_default();
+        let steps: Vec<(usize, bool)> =
+            case["steps"].as_array().map(|a| a.iter().map(|v| (v[0].as_u64().unwrap_or(0) as usize, v[1].as_bool().unwrap_or(false))).collect()).unwrap_or_default();
+        let o = run_b(&kinds, &steps);
+        let j = judge_b(&kinds, &steps, &o);
+        s += &format!("part B kinds {kinds:?} steps {steps:?}\nbody:\n    {}\n", escape(&o.chunks.concat()));
+        for f in &j.findings {
+            s += &format!("  {} [{}]: {}\n", f.class, f.stage, f.detail);
+        }
+        if j.findings.is_empty() {
+            s += "  oracle: well framed\n";
+        }
+    } else {
+        let choices: Vec<u32> = case["choices"].as_array().map(|a| a.iter().map(|v| v.as_u64().unwrap_or(0) as u32).collect()).unwrap_or_default();
+        let b = BoundsA { max_n: case["max_n"].as_u64().unwrap_or(3) as usize, ticks: case["ticks"].as_u64().unwrap_or(3) as usize, kinds: case["kinds"].as_u64().unwrap_or(4) as usize };
+        let o = run_a(&mut Chooser::from_choices(&choices), b);
+        let j = judge_a(&o);
+        s += &format!("part A kinds {:?}\nschedule {:?} -> {}\nbody:\n    {}\n", o.kinds, o.schedule, o.end, escape(&o.chunks.concat()));
+        for f in &j.findings {
+            s += &format!("  {} [{}]: {}\n", f.class, f.stage, f.detail);
+        }
+        if j.findings.is_empty() {
+            s += "  oracle: well framed\n";
+        }
+    }
+    s
+}
+
+fn main() {
+    agv_engine::driver::main("C26", "model_checking", run, Some(replay))
+}
